@@ -337,6 +337,38 @@ func relayJobs(w *world) []job {
 			id := reg.AddBlock(b)
 			return relayPlan{op: fmt.Sprintf("rout %d complete", id), rpc: netx.RPCRelayV2Outline, req: netx.EncOutline(full(b)), kind: "out", honest: true}
 		}})
+	// a header that misses the work target of a KNOWN parent that is not the tip: an earlier block
+	// of the best chain, and a stored side-chain block (provable misbehaviour wherever it attaches)
+	for _, back := range []int{1, 4, 11} {
+		back := back
+		add(back == 4, &relayCase{name: fmt.Sprintf("relay-header-weak-on-earlier-block-%d", back), tags: []string{"rpc:RelayV2Header", "relay:insufficient-work-off-tip"}, tie: true,
+			build: func(rc *relayCase, reg *netx.Reg, victim *netx.Node) relayPlan {
+				ps := main.States[s-1-back] // state after the block `back` below the tip
+				b := nt.BuildOn(ps, netx.MineOpts{Addr: types.Address{0xD1, byte(back)}, Dt: 2 * time.Second})
+				h := badNonce(b.Header(), ps)
+				id := reg.AddHeader(h)
+				return relayPlan{op: fmt.Sprintf("rhdr %d", id), rpc: netx.RPCRelayV2Header, req: netx.EncHeader(h), kind: "hdr", mustBan: true}
+			}})
+	}
+	add(true, &relayCase{name: "relay-header-weak-on-unapplied-fork", tags: []string{"rpc:RelayV2Header", "relay:insufficient-work-on-sidechain"}, tie: true,
+		side: func() []types.Block { return sideFork().Blocks[s-3:] },
+		build: func(rc *relayCase, reg *netx.Reg, victim *netx.Node) relayPlan {
+			f := sideFork()
+			ps := f.CM.TipState()
+			b := f.Build(netx.MineOpts{Addr: types.Address{0xD2}, Dt: 3 * time.Second})
+			h := badNonce(b.Header(), ps)
+			id := reg.AddHeader(h)
+			return relayPlan{op: fmt.Sprintf("rhdr %d", id), rpc: netx.RPCRelayV2Header, req: netx.EncHeader(h), kind: "hdr", mustBan: true}
+		}})
+	// … and the honest counterpart: a valid header on the same parents is a resync, not a ban
+	add(false, &relayCase{name: "relay-header-valid-on-unapplied-fork", tags: []string{"rpc:RelayV2Header", "relay:valid-child-of-unapplied-sidechain-block"}, tie: true,
+		side: func() []types.Block { return sideFork().Blocks[s-3:] },
+		build: func(rc *relayCase, reg *netx.Reg, victim *netx.Node) relayPlan {
+			f := sideFork()
+			b := f.Build(netx.MineOpts{Addr: types.Address{0xD3}, Dt: 3 * time.Second})
+			id := reg.AddHeader(b.Header())
+			return relayPlan{op: fmt.Sprintf("rhdr %d", id), rpc: netx.RPCRelayV2Header, req: netx.EncHeader(b.Header()), kind: "hdr", honest: true}
+		}})
 	// below the require height: a valid header that attaches to the tip (the block may be a v1 block)
 	for _, vs := range []int{3, 8} {
 		vs := vs
